@@ -9,6 +9,7 @@ NOTE = ("Trusted: Lean 4.33 kernel; axioms propext/Classical.choice/Quot.sound o
 CLAIMED = {
  "C04": ("Lean theorems over all token lists, modes, tables and interceptor lists of any length: the intercepted parse (observers and re-entrant interceptors) returns the same tree, errors and cursor as the interceptor-free parse; statement interceptors and next()-calling expression interceptors run in installation order on the entry state; a re-entrant interceptor sees the entry state; the current expression precedence is restored on every exit.", "§7 C04", "Token interceptors of the lexer are not modelled in Lean (correspondence + transparency oracle only); the transparency theorem is partial correctness (if the intercepted parse returns)."),
  "C05": ("Lean theorems over all registration histories on one builder: token ids are stable per name, injective, >= 1000 (above every built-in type); a registration whose (role, token) is already present (seeded built-in or earlier) is refused and leaves the builder unchanged; accepted registrations are recorded once; operator lists never hold a token twice. Built-in seeds are a regenerated table obligation.", "§7 C05", "The grouping clause (a registered infix operator groups like a built-in of its level) is decided by the PARSE correspondence with custom operators and the model-free precedence-climbing oracle (exhaustive level x neighbour grid), not yet by theorem; partial."),
+ "C06": ("Lean theorem over all trees (parsed or programmatic), both semicolon settings and any two indent units made of spaces/tabs: the pretty-printed texts are equal after deleting the leading run of spaces and tabs of every line — the indentation option changes only leading whitespace; deferred indentation is only ever pending behind a pending line feed.", "§7 C06", "The theorem is about the writer's text before the compiler's final TrimSpace/TrimRight clean-up. Same tree as compact (a), idempotence (b) and the semicolon option (d) are decided by the PRINT correspondence over the option grid and the model-free oracle (re-parse, double formatting, semicolon-only diff) with known findings nosemi-hazard and trim-in-literal; partial."),
  "C08": ("Lean theorems over all trees (compact output, no CR in written strings): every recorded mapping's generated position is the line/column (counting specification) of the prefix of the code emitted before its token; mappings are ordered by generated position; identifiers are written only together with a named mapping carrying them, and the recorded name index resolves to the identifier.", "§7 C08", "Pretty-printed output violates the property in the code itself (known finding D12, class pretty-map) and is judged by the model-free oracle (independent decoders + lexeme comparison), which also checks the source side in every configuration; the source side is not a theorem; partial."),
  "C09": ("Lean theorems over all operation histories: spec-decode(encode) = recorded absolute mappings, VLQ round trip for every Int, name interning, line-break aware position tracking, version 3.", "§7 C09", ""),
  "C10": ("Lean theorems over all byte strings: totality with a final EOF, EOF stickiness at the end position, every token starts at the line/column of the byte offset where the cursor stood, offsets are monotone and inside the source, every non-EOF token consumes input.", "§7 C10", "Tiling by trivia-only gaps and literal=slice are decided by correspondence + the model-free tiling oracle, not yet by theorem."),
